@@ -1,7 +1,7 @@
 (* C02 - ForceFlush and Shutdown are complete, final, and return (batch processors: under every interleaving, given only that
    the worker keeps being scheduled - Batch/Fair.v; periodic reader and providers: evidenced by the scheduled runs).
    Property theorems only; proofs are in Batch/Proofs*.v and Batch/Theorems.v. *)
-From V Require Import Batch.Model Batch.ProofsA Batch.ProofsB Batch.Theorems Batch.Glue Batch.Spec Batch.TraceSpec Batch.TraceSpec2 Batch.Compose Batch.ComposeProofs Batch.Periodic Batch.PeriodicProofs Batch.PeriodicFair Batch.Progress Batch.Fair.
+From V Require Import Batch.Model Batch.ProofsA Batch.ProofsB Batch.Theorems Batch.Glue Batch.Spec Batch.TraceSpec Batch.TraceSpec2 Batch.Compose Batch.ComposeProofs Batch.Periodic Batch.PeriodicProofs Batch.PeriodicTrace Batch.PeriodicTrace2 Batch.PeriodicFair Batch.Progress Batch.Fair.
 From Coq Require Import List Arith.
 Import ListNotations.
 
@@ -146,6 +146,25 @@ Theorem c02_periodic_no_export_after_shutdown : forall s t n, rreachable s -> 0 
   raccept s (t, RExpBegin n) = None.
 Proof. exact periodic_no_export_after_shutdown. Qed.
 Print Assumptions c02_periodic_no_export_after_shutdown.
+
+(* MODEL |= SPEC, periodic reader: every trace the acceptor accepts passes the C02 history checker periodic_spec2 (the pw
+   walker) that ./check runs on the implementation's traces; no side condition *)
+Theorem c02_periodic_accepted_trace_meets_spec : forall tr s, rrun rinit tr = Some s ->
+  pw_fail (fold_left pw_step (rpevs tr) (mk_pw 0 false 0 [] None [])) = [].
+Proof. exact accepted_trace_meets_periodic_spec2. Qed.
+Print Assumptions c02_periodic_accepted_trace_meets_spec.
+
+Theorem c02_periodic_accepted_tokens_meet_spec : forall toks tr s,
+  rparse_trace toks = rpevs tr -> rrun rinit tr = Some s -> periodic_spec2 toks = [].
+Proof. exact accepted_tokens_meet_periodic_spec2. Qed.
+Print Assumptions c02_periodic_accepted_tokens_meet_spec.
+
+Theorem c02_periodic_spec_nonvacuous :
+  ((exists s, rrun rinit periodic_demo_trace = Some s) /\ pw_fail (fold_left pw_step (rpevs periodic_demo_trace) pw_init) = []) /\
+  (pw_fail (fold_left pw_step (rpevs periodic_early_true_trace) pw_init) = Base.Tok.fail "flush_true_complete:missing_periodic" /\
+   rrun rinit periodic_early_true_trace = None).
+Proof. exact (conj periodic_demo_passes_spec2 periodic_early_true_fails_spec2). Qed.
+Print Assumptions c02_periodic_spec_nonvacuous.
 
 Theorem c02_nonvacuous : exists s, run (init 1 1) demo_trace = Some s /\ In (2, 1, true) (fl_done s) /\ sh_done s <> [] /\
   dropped s = [12] /\ exported s = [[11]].
